@@ -22,7 +22,7 @@ VERIFICATION_FAILURE_PATTERNS = [
     'decreases not satisfied', 'could not prove termination', 'possible bit shift underflow/overflow',
     'loop invariant not satisfied', 'failed precondition', 'failed this postcondition',
     'constructed value may fail to meet its declared type invariant',
-    'requires not satisfied', 'unable to prove', 'cannot show invariant', 'might fail', 'bit-vector assertion', 'assertion not satisfied',
+    'requires not satisfied', 'precondition not met', 'unable to prove', 'cannot show invariant', 'might fail', 'bit-vector assertion', 'assertion not satisfied',
 ]
 RLIMIT_PATTERNS = ['rlimit', 'resource limit', 'timed out', 'timeout']
 
